@@ -54,7 +54,7 @@ def engine_run(pid, eng, tier, seed, tmp, replay_inputs=None):
         with open(cases) as f, open(ins, "w") as g:
             for line in f:
                 g.write(json.dumps(json.loads(line)["in"]) + "\n")
-        rc, err = core.run_model(eng["model"], ins, mo)
+        rc, err = core.run_model(eng["model"], ins, mo, eng.get("model_exe", "ibcmodel"))
         if rc != 0:
             res["error"] = {"kind": "model-run", "msg": err[-2000:], "rc": rc}
             return res
@@ -104,7 +104,8 @@ def main(argv=None):
     if ext.get("error"):
         problems.append({"kind": "extractor", "detail": ext["error"]})
     modules = cfg["lean"]
-    ok, broken, out = core.lean_build(modules)
+    drivers = sorted({e.get("model_exe", "ibcmodel") for e in cfg.get("engines", [])})
+    ok, broken, out = core.lean_build(modules, drivers)
     if not ok:
         for b in broken:
             problems.append({"kind": "lean-obligation", "detail": b})
@@ -129,7 +130,7 @@ def main(argv=None):
     driver_ok = ok
     if not driver_ok:
         # the property modules broke; the model driver may still build on its own
-        dok, _, _ = core.lean_build([], need_driver=True)
+        dok, _, _ = core.lean_build([], drivers)
         driver_ok = dok
     for eng in cfg.get("engines", []):
         if not driver_ok:
